@@ -45,6 +45,9 @@ declarations:
 - decl: int f25(bool b)
 - decl: double f27(double x, int n = 1)
 - decl: int f27(const std::string & s, int n = 1)
+- decl: int f30(int a, const std::string & s)
+- decl: int f30(const std::string & s, int a)
+- decl: int f30(int a, int b)
 - decl: long long f23(long long a)
 - decl: long f24(long a, size_t n)
 - decl: class Late
@@ -86,6 +89,9 @@ int f25(const std::string &s);
 int f25(bool b);
 double f27(double x, int n = 1);
 int f27(const std::string &s, int n = 1);
+int f30(int a, const std::string &s);
+int f30(const std::string &s, int a);
+int f30(int a, int b);
 long long f23(long long a);
 long f24(long a, size_t n);
 class Late { public: int value; int peek() const; explicit Late(int v); Late(); Late(const std::string &s, int k = 2); };
@@ -113,6 +119,9 @@ int f25(const std::string &s) { IN("f25(const std::string&)"); vt_str(s.c_str(),
 int f25(bool b) { IN("f25(bool)"); vt_bool(b); vt_end(); int rv = b ? 601 : 600; OUT("f25(bool)"); vt_int(rv); vt_end(); return rv; }
 double f27(double x, int n) { IN("f27(double,int)"); vt_dbl(x); vt_int(n); vt_end(); double rv = x * n + 0.25; OUT("f27(double,int)"); vt_dbl(rv); vt_end(); return rv; }
 int f27(const std::string &s, int n) { IN("f27(const std::string&,int)"); vt_str(s.c_str(), (long)s.size()); vt_int(n); vt_end(); int rv = 700 + (int)s.size() * n; OUT("f27(const std::string&,int)"); vt_int(rv); vt_end(); return rv; }
+int f30(int a, const std::string &s) { IN("f30(int,const std::string&)"); vt_int(a); vt_str(s.c_str(), (long)s.size()); vt_end(); int rv = 100 + a + (int)s.size(); OUT("f30(int,const std::string&)"); vt_int(rv); vt_end(); return rv; }
+int f30(const std::string &s, int a) { IN("f30(const std::string&,int)"); vt_str(s.c_str(), (long)s.size()); vt_int(a); vt_end(); int rv = 200 + a + (int)s.size(); OUT("f30(const std::string&,int)"); vt_int(rv); vt_end(); return rv; }
+int f30(int a, int b) { IN("f30(int,int)"); vt_int(a); vt_int(b); vt_end(); int rv = 300 + a * 10 + b; OUT("f30(int,int)"); vt_int(rv); vt_end(); return rv; }
 long long f23(long long a) { IN("f23(long long)"); vt_int((long)a); vt_end(); long long rv = a * 2 + 1; OUT("f23(long long)"); vt_int((long)rv); vt_end(); return rv; }
 long f24(long a, size_t n) { IN("f24(long,size_t)"); vt_int(a); vt_int((long)n); vt_end(); long rv = a + (long)n; OUT("f24(long,size_t)"); vt_int(rv); vt_end(); return rv; }
 int Late::peek() const { IN("Late::peek()"); vt_obj(this); vt_end(); int rv = value; OUT("Late::peek()"); vt_int(rv); vt_end(); return rv; }
@@ -260,6 +269,9 @@ FUNCS = [
     ("f25", "module", 0, [("f25(const std::string&)", ["str"], "int", 0), ("f25(bool)", ["bool"], "int", 0)]),
     # overloads with different result types, each with a default argument (the variants are visited interleaved)
     ("f27", "module", 0, [("f27(double,int)", ["dbl", "int"], "dbl", 1), ("f27(const std::string&,int)", ["str", "int"], "int", 1)]),
+    # three candidates of one arity whose argument types are covered position by position by the others
+    ("f30", "module", 0, [("f30(int,const std::string&)", ["int", "str"], "int", 0), ("f30(const std::string&,int)", ["str", "int"], "int", 0),
+                          ("f30(int,int)", ["int", "int"], "int", 0)]),
     ("f23", "module", 0, [("f23(long long)", ["int"], "int", 0)]),
     ("f24", "module", 0, [("f24(long,size_t)", ["int", "int"], "int", 0)]),
     # a class whose constructors are declared after a method
